@@ -281,6 +281,11 @@ class CallGraph:
                 tg = self._method_targets(f.cls, attr)
                 if tg:
                     return CallSite(q, n, tg, how="self/cls method via MRO + overriding subclasses")
+                # self.Nested(...): constructing a class nested in (a base of) the receiver's class
+                for cq in self.ix.mro(f.cls):
+                    ci = self.ix.classes.get(cq)
+                    if ci is not None and attr in ci.nested:
+                        return CallSite(q, n, self._construct(ci.nested[attr]), how="constructor of a nested class via self")
             d = dotted_of(fn)
             if d is not None:
                 r = self.ix.resolve(f.module, d, f.cls)
